@@ -5,8 +5,8 @@ import os
 
 VERIF = os.path.dirname(os.path.dirname(os.path.abspath(__file__)))
 
-SOCK_SRC = (" SocketWrapper._recv and read are translated too and proved equal to the socket model for every sequence of recv() "
-            "results (C10_recv_from_source, C10_sock_read_from_source); readline is translated, not yet proved.")
+SOCK_SRC = (" SocketWrapper._recv, read and readline are translated too and proved equal to the socket model for every sequence of "
+            "recv() results (C10_recv_from_source, C10_sock_read_from_source, C10_sock_readline_from_source).")
 READER_SRC = (" Translation tie (C06_*_from_source, props/C06_src.v): UBXReader's stream-reading methods (_read_bytes, _read_line, "
               "_parse_ubx, _parse_nmea, _parse_rtcm3, _do_error, read) are translated from /repo on every run (harness/py2coq_io.py, "
               "a state-and-exception monad in coq/model/PyMini.v: trusted) and proved equal to this model - read() as a whole "
